@@ -74,6 +74,35 @@ theorem c15_control_send (g : Cfg) (e : Env) (i op : Nat) (data : Bytes) (hop : 
   have : data.length > 125 := hl
   simp [writeMessage, hop, this]
 
+/-- C15 (control, send, `WriteFrame`): the entry point that writes one frame as given refuses a control payload over 125
+    bytes as well — nothing is written, the state is unchanged … -/
+theorem c15_control_send_frame (g : Cfg) (e : Env) (k : K) (op : Nat) (so fin : Bool) (data : Bytes) (hop : isControl op = true)
+    (hl : data.length > Gen.maxControlFramePayloadSize) : appWriteFrame g e k op so fin data = (k, .error .controlTooBig) := by
+  have : data.length > 125 := hl
+  simp [appWriteFrame, hop, this]
+
+/-- … and `WriteClose(code, reason)`: the limit is on the whole payload, the 2-byte status code included — a reason of more
+    than 123 bytes is refused -/
+theorem c15_control_send_close (g : Cfg) (e : Env) (k : K) (code : Nat) (reason : Bytes)
+    (hl : reason.length + 2 > Gen.maxControlFramePayloadSize) : appWriteClose g e k code reason = (k, .error .controlTooBig) := by
+  have h2 : (be16 code ++ reason).length > 125 := by
+    have : reason.length + 2 > 125 := hl
+    simp [be16, WsF.beEnc_length]; omega
+  have hw : writeMessage g e k.nwrites 8 (be16 code ++ reason) = .error .controlTooBig := by
+    unfold writeMessage; rw [if_pos (by decide), if_pos h2]
+  unfold appWriteClose appWrite; rw [hw]
+
+/-- every frame a send entry point writes for a control opcode carries at most 125 payload bytes: a successful call had such a payload -/
+theorem c15_control_send_ok (g : Cfg) (e : Env) (k k' : K) (op : Nat) (so fin : Bool) (data : Bytes) (ws : List Bytes) (hop : isControl op = true) :
+    (appWriteFrame g e k op so fin data = (k', .ok ws) → data.length ≤ 125) ∧ (appWrite g e k op data = (k', .ok ws) → data.length ≤ 125) := by
+  constructor
+  · intro h
+    apply Nat.le_of_not_lt; intro hb
+    simp [appWriteFrame, hop, hb] at h
+  · intro h
+    apply Nat.le_of_not_lt; intro hb
+    simp [appWrite, writeMessage, hop, hb] at h
+
 /-- C15 (cache, by the message limit): while the connection lives, the unparsed input kept between Parse calls is an
     incomplete header or an incomplete frame that passed the size checks: fewer than 14 + max 125 (limit − assembled) bytes,
     whatever ReadLimit is -/
